@@ -457,8 +457,19 @@ func (g *gen) step() bool {
 			return true
 		}
 		k := "Materialize"
-		if g.r.Intn(2) == 0 {
+		switch g.r.Intn(3) {
+		case 0:
 			k = "Clone"
+		case 1: // a second tensor object over the same storage: to the generator it is a view of h (it may be handed back
+			// while h lives on, and h's pending transposition must survive that)
+			out, ok := g.do(mk("ShallowClone", h, []int{}))
+			if out.IsNew {
+				ni := g.info[out.Ret-1]
+				ni.view, ni.parent, ni.stepped, ni.pending = true, h, x.stepped, x.pending
+				ni.root, ni.masked, ni.boolean, ni.integer = x.root, x.masked, x.boolean, x.integer
+				x.kids = append(x.kids, out.Ret)
+			}
+			return ok
 		}
 		out, ok := g.do(mk(k, h, []int{}))
 		if out.IsNew {
